@@ -50,11 +50,13 @@ func newCtx() *Ctx {
 	c.decl("(declare-fun isExist (Iface) Bool)")
 	c.decl("(declare-fun isPerm (Iface) Bool)")
 	c.decl("(declare-fun isDeadline (Iface) Bool)")
+	c.decl("(declare-fun isNotDir (Iface) Bool)")  // errors.Is(e, syscall.ENOTDIR)
+	c.decl("(declare-fun asLinkErr (Iface) Int)") // first *os.LinkError in the chain
 	c.decl("(declare-fun osIsExist (Iface) Bool)")    // os.IsExist: no unwrapping beyond *PathError / *LinkError
 	c.decl("(declare-fun osIsNotExist (Iface) Bool)") // os.IsNotExist
 	c.decl("(declare-fun errText (Iface) String)")
 	c.decl("(declare-fun hostPath (Iface) Bool)") // ghost: error text mentions a host path
-	c.decl("(assert (and (= (asHTTP nilI) 0) (= (asDavErr nilI) 0) (= (asPathErr nilI) 0) (not (isNotExist nilI)) (not (isExist nilI)) (not (isPerm nilI)) (not (isDeadline nilI)) (not (hostPath nilI)) (not (osIsExist nilI)) (not (osIsNotExist nilI))))")
+	c.decl("(assert (and " + obsNone("nilI") + " (not (hostPath nilI)) (not (osIsExist nilI)) (not (osIsNotExist nilI))))")
 	c.decl("(declare-fun bitand (Int Int) Int)")
 	c.decl("(declare-fun bitor (Int Int) Int)")
 	return c
